@@ -27,7 +27,7 @@ import (
 	"verifharness/gal"
 )
 
-const header = "From CSS Require Import Lib.Base Lib.Cases Model.EventLog Model.EventLogCases."
+const header = "From CSS Require Import Lib.Base Lib.Cases Model.EventLog Model.EventLogSess Model.EventLogCases."
 
 type Event = tpmeventlog.Event
 type Alg = tpmeventlog.TPMAlgorithm
@@ -592,30 +592,18 @@ func randomLog(c *gal.Ctx) genLog {
 
 // ---------------------------------------------------------------- Replay / FilterEvents
 
-type replayIn struct {
-	Log []evJ `json:"log"`
-	PCR int   `json:"pcr"`
-	Alg int   `json:"alg"`
+// replayExpectation: what the property text says about Replay(l, p, a), computed from the
+// log alone (no call of the code under test): the events of that PCR and bank, the seed, the
+// TCG fold over the measurement events, and whether the log is one that must be replayed.
+type replayExpectation struct {
+	size       int
+	idx        []int
+	seed, want []byte
+	tbl        []tblEntry
+	mustAccept bool
 }
 
-func callReplay(l []*Event, p pcr.ID, a Alg, w io.Writer) ([]byte, res) {
-	var v []byte
-	var r res
-	r.panicked, r.pmsg = gal.Recover(func() {
-		v, r.err = tpmeventlog.Replay(&tpmeventlog.TPMEventLog{Events: l}, p, a, w)
-	})
-	return v, r
-}
-
-func replay1(c *gal.Ctx, g genLog, p pcr.ID, a Alg) {
-	l := g.events
-	var w io.Writer
-	if c.Rng.Intn(2) == 0 {
-		w = &bytes.Buffer{}
-	}
-	v, r := callReplay(l, p, a, w)
-
-	// ---- what the property says, computed independently
+func expectReplay(l []*Event, p pcr.ID, a Alg) replayExpectation {
 	size := hashSize(a)
 	idx := selIdx(l, p, a)
 	var seed []byte
@@ -651,6 +639,35 @@ func replay1(c *gal.Ctx, g genLog, p pcr.ID, a Alg) {
 		want, tbl = foldTCG(a, seed, ds)
 	}
 	mustAccept := size > 0 && (p == 0 || p == 1) && lengthsOK && !startupElsewhere && (!startupLeading || wellFormedStartup)
+	return replayExpectation{size, idx, seed, want, tbl, mustAccept}
+}
+
+type replayIn struct {
+	Log []evJ `json:"log"`
+	PCR int   `json:"pcr"`
+	Alg int   `json:"alg"`
+}
+
+func callReplay(l []*Event, p pcr.ID, a Alg, w io.Writer) ([]byte, res) {
+	var v []byte
+	var r res
+	r.panicked, r.pmsg = gal.Recover(func() {
+		v, r.err = tpmeventlog.Replay(&tpmeventlog.TPMEventLog{Events: l}, p, a, w)
+	})
+	return v, r
+}
+
+func replay1(c *gal.Ctx, g genLog, p pcr.ID, a Alg) {
+	l := g.events
+	var w io.Writer
+	if c.Rng.Intn(2) == 0 {
+		w = &bytes.Buffer{}
+	}
+	v, r := callReplay(l, p, a, w)
+
+	// ---- what the property says, computed independently
+	ex := expectReplay(l, p, a)
+	idx, tbl := ex.idx, ex.tbl
 
 	in := replayIn{logJSON(l), int(p), int(a)}
 	ci := c.Add("replay/"+g.shape, "CReplay "+tblLit(tbl)+" "+logLit(l)+" "+gal.Z(int64(p))+" "+gal.Z(int64(a))+" "+robs(r, gal.Bytes(v)),
@@ -658,48 +675,58 @@ func replay1(c *gal.Ctx, g genLog, p pcr.ID, a Alg) {
 	c.Count("replay-outcome/" + strings.SplitN(outcomeStr(r), ":", 2)[0])
 
 	const site = "pkg/tpmeventlog/replay.go Replay"
-	switch {
-	case r.panicked:
-		c.OracleFail(ci, "Replay panicked ("+r.pmsg+"): every log must be replayed or rejected with an error", site, in)
-	case r.err == nil:
-		switch {
-		case size <= 0:
-			c.OracleFail(ci, "Replay returned a value for an algorithm without a hash function", site, in)
-		case !bytes.Equal(v, want):
-			c.OracleFail(ci, fmt.Sprintf("Replay returned %x, the TCG fold over the measurement events of PCR%d/alg 0x%x seeded with %x is %x", v, p, uint16(a), seed, want), site, in)
-		default:
-			// no-action events never contribute a digest: changing their digests (same length) changes nothing
-			changed := false
-			l2 := make([]*Event, len(l))
-			for i, e := range l {
-				l2[i] = e
-				if e.Type == evNoAction && e.Digest != nil {
-					cp := *e
-					d := append([]byte(nil), e.Digest.Digest...)
-					for j := range d {
-						d[j] ^= 0xA5
-					}
-					cp.Digest = &tpmeventlog.Digest{HashAlgo: e.Digest.HashAlgo, Digest: d}
-					l2[i] = &cp
-					changed = true
+	if what := judgeReplay(ex, p, a, v, r); what != "" {
+		c.OracleFail(ci, what, site, in)
+		return
+	}
+	if r.err == nil {
+		// no-action events never contribute a digest: changing their digests (same length) changes nothing
+		changed := false
+		l2 := make([]*Event, len(l))
+		for i, e := range l {
+			l2[i] = e
+			if e.Type == evNoAction && e.Digest != nil {
+				cp := *e
+				d := append([]byte(nil), e.Digest.Digest...)
+				for j := range d {
+					d[j] ^= 0xA5
 				}
+				cp.Digest = &tpmeventlog.Digest{HashAlgo: e.Digest.HashAlgo, Digest: d}
+				l2[i] = &cp
+				changed = true
 			}
-			if changed {
-				v2, r2 := callReplay(l2, p, a, nil)
-				if r2.panicked || r2.err != nil || !bytes.Equal(v2, v) {
-					c.OracleFail(ci, fmt.Sprintf("changing only the digests of EV_NO_ACTION events changed the replay: %x -> %x (%s)", v, v2, outcomeStr(r2)), site, in)
-					return
-				}
-			}
-			c.OracleOK()
 		}
-	default:
-		if mustAccept {
-			c.OracleFail(ci, "a log of right-length measurement events (optionally led by one well-formed startup-locality event) was rejected: "+r.err.Error(), site, in)
-		} else {
-			c.OracleOK()
+		if changed {
+			v2, r2 := callReplay(l2, p, a, nil)
+			if r2.panicked || r2.err != nil || !bytes.Equal(v2, v) {
+				c.OracleFail(ci, fmt.Sprintf("changing only the digests of EV_NO_ACTION events changed the replay: %x -> %x (%s)", v, v2, outcomeStr(r2)), site, in)
+				return
+			}
 		}
 	}
+	c.OracleOK()
+}
+
+// judgeReplay: the property's verdict on one Replay call ("" = holds): never a panic; a
+// returned value is the TCG fold over the measurement events of that PCR and bank; a log of
+// right-length measurement events, optionally led by one well-formed startup event, is replayed.
+func judgeReplay(ex replayExpectation, p pcr.ID, a Alg, v []byte, r res) string {
+	switch {
+	case r.panicked:
+		return "Replay panicked (" + r.pmsg + "): every log must be replayed or rejected with an error"
+	case r.err == nil:
+		switch {
+		case ex.size <= 0:
+			return "Replay returned a value for an algorithm without a hash function"
+		case !bytes.Equal(v, ex.want):
+			return fmt.Sprintf("Replay returned %x, the TCG fold over the measurement events of PCR%d/alg 0x%x seeded with %x is %x", v, p, uint16(a), ex.seed, ex.want)
+		}
+	default:
+		if ex.mustAccept {
+			return "a log of right-length measurement events (optionally led by one well-formed startup-locality event) was rejected: " + r.err.Error()
+		}
+	}
+	return ""
 }
 
 type filterIn struct {
@@ -998,8 +1025,12 @@ func parseData1(c *gal.Ctx, in ped, kind string) {
 	ci := c.Add("parsedata/"+kind, "CParseData "+evLit(in.ev)+" "+gal.U(in.isz)+" "+robs(r, lit),
 		map[string]interface{}{"call": "ParseEventData", "input": inj, "outcome": outcomeStr(r)}, len(in.ev.Data) > 0)
 	const site = "pkg/tpmeventlog/parse_event_data.go ParseEventData"
+	note := ""
+	if kind == "reused-event" {
+		note = " [ONE *Event re-used: it was parsed before and edited in place since; the input is the event as it is at this call]"
+	}
 	if r.panicked {
-		c.OracleFail(ci, "ParseEventData panicked: "+r.pmsg, site, inj)
+		c.OracleFail(ci, "ParseEventData panicked: "+r.pmsg+note, site, inj)
 		return
 	}
 	if r.err != nil {
@@ -1089,7 +1120,7 @@ func parseData1(c *gal.Ctx, in ped, kind string) {
 		}
 	}
 	if !ok {
-		c.OracleFail(ci, "ParseEventData: "+what, site, inj)
+		c.OracleFail(ci, "ParseEventData: "+what+note, site, inj)
 	} else {
 		c.OracleOK()
 	}
@@ -1166,18 +1197,22 @@ func tpmReplay1(c *gal.Ctx, l tpm.EventLog, p pcr.ID, a Alg, loc uint8, kind str
 		map[string]interface{}{"call": "tpm.EventLog.Replay", "input": in, "outcome": outcomeStr(r), "value": hex.EncodeToString(v)}, len(ds) > 0)
 	c.Count(fmt.Sprintf("tpmreplay-measurements/%d", min(len(ds), 4)))
 	const site = "pkg/bootflow/subsystems/trustchains/tpm/event_log.go EventLog.Replay"
+	note := ""
+	if kind == "reused-slice" {
+		note = " [ONE tpm.EventLog slice re-used: it was replayed before and its entries were edited in place since; the input is the slice as it is at this call]"
+	}
 	switch {
 	case p != 0 || size <= 0:
 		// documented: panics for PCRs other than 0 and for unsupported algorithms
 		if !r.panicked && size <= 0 {
-			c.OracleFail(ci, "EventLog.Replay returned a value for an algorithm without a hash function", site, in)
+			c.OracleFail(ci, "EventLog.Replay returned a value for an algorithm without a hash function"+note, site, in)
 		} else {
 			c.OracleOK()
 		}
 	case r.panicked:
-		c.OracleFail(ci, "EventLog.Replay panicked for PCR0 and a supported algorithm: "+r.pmsg, site, in)
+		c.OracleFail(ci, "EventLog.Replay panicked for PCR0 and a supported algorithm: "+r.pmsg+note, site, in)
 	case !bytes.Equal(v, want):
-		c.OracleFail(ci, fmt.Sprintf("EventLog.Replay returned %x; the TCG fold over the %d non-EV_NO_ACTION entries of PCR0/alg 0x%x seeded with zeros||%d is %x", v, len(ds), uint16(a), loc, want), site, in)
+		c.OracleFail(ci, fmt.Sprintf("EventLog.Replay returned %x; the TCG fold over the %d non-EV_NO_ACTION entries of PCR0/alg 0x%x seeded with zeros||%d is %x", v, len(ds), uint16(a), loc, want)+note, site, in)
 	default:
 		c.OracleOK()
 	}
@@ -1302,7 +1337,7 @@ func fromParsed1(c *gal.Ctx, g genLog) {
 // ---------------------------------------------------------------- main
 
 func main() {
-	c := gal.New("C12", header, 260)
+	c := gal.New("C12", header, 360)
 
 	// every hash the model's hash_size table lists must be linked into this binary
 	for _, a := range []Alg{0x4, 0xB, 0xC, 0xD, 0x27, 0x28, 0x29} {
@@ -1367,11 +1402,34 @@ func main() {
 		if i%4 == 0 {
 			fromParsed1(c, g)
 		}
+		// ---- a session on ONE log object (spread over the shards): calls, in-place edits, calls
+		if i%6 == 3 {
+			var gs genLog
+			switch k := c.Rng.Intn(10); {
+			case k < 2:
+				for t := 0; t < 20; t++ {
+					if gs = wellFormed(c); gs.shape == "wf+startup" {
+						gs.shape = "wf+startup/locality"
+						break
+					}
+				}
+			case k < 6:
+				gs = wellFormed(c)
+			case k < 9:
+				gs = broken(c)
+			default:
+				gs = randomLog(c)
+			}
+			session1(c, gs)
+		}
 	}
 
 	// ---- ParseEventData
 	for i, n := 0, c.Scale(900, 10000); i < n; i++ {
 		parseData1(c, rParseEventDataInput(c), "random")
+		if i%30 == 7 {
+			parseDataReuse(c) // one *Event parsed again after in-place edits
+		}
 	}
 
 	// ---- tpm.EventLog.Replay / RestoreCommands
@@ -1389,14 +1447,23 @@ func main() {
 		if i%2 == 0 {
 			restore1(c, l)
 		}
+		if i%24 == 5 {
+			tpmReuse(c) // one tpm.EventLog slice replayed again after in-place edits
+		}
 	}
 
 	c.Finish("generated parsed logs ([]*tpmeventlog.Event built directly): well-formed (0..6 measurement events, optional leading startup event, " +
 		"interleaved other-bank/other-PCR/nil-digest noise), one-defect variants (wrong digest length, late/duplicate/malformed startup event, PCR>=2, " +
 		"bogus algorithm, PCR1 startup, nil digest) and random logs, each replayed for its own and for a foreign (PCR, algorithm); locality data of every " +
 		"length 0..20 in 5 shapes plus near-misses; ParseEventData inputs with 0..3 (length,offset) pairs valid/invalid/swapped/boundary for 18 image sizes and " +
-		"length-prefixed descriptions incl. Fv(<guid>); tpm.EventLog entries with unchecked digest lengths. A case is non-trivial when at least one event of the " +
-		"queried PCR/bank exists (ParseLocality/ParseEventData: non-empty data); distinct = distinct Gallina literal")
+		"length-prefixed descriptions incl. Fv(<guid>); tpm.EventLog entries with unchecked digest lengths. Histories: ~130 sessions on ONE *TPMEventLog object " +
+		"(heap of Event objects + log.Events with spare capacity; first the main (PCR, bank) question, then 2-5 rounds of 1-3 in-place edits by the owner -- entries swapped / replaced, " +
+		"PCR index, algorithm, digest object, digest byte, digest length, nil digest, event type, locality byte changed through the pointer, foreign event moved into the bank, " +
+		"new slice of the same length, append, remove, remove+append, reslice, clear+refill of the same array, bank repaired, initial log restored, caller overwrites a returned result -- " +
+		"followed by Replay / FilterEvents / EventLogFromParsed on the same object; every call judged on the log as it is at that moment, the object compared with the harness's " +
+		"own record after every call, every returned result compared with a private copy after every later step); one tpm.EventLog slice / one *Event re-used by " +
+		"EventLog.Replay / ParseEventData after in-place edits. A case is non-trivial when at least one event of the " +
+		"queried PCR/bank exists (ParseLocality/ParseEventData: non-empty data; session: a call after an edit finds events of its PCR/bank); distinct = distinct Gallina literal")
 }
 
 func fixedWitnesses(c *gal.Ctx) {
